@@ -49,17 +49,27 @@ class SubLV:
         self.parent = parent
         self.key = key
 
+    def _key(self, eng, st, base):
+        k, c = eng.coerce(self.key, base.ty.key)
+        if c is not None and not eng.spec:
+            eng.oblige("type.dict-key", "type", st, c)
+            st.assume(c)
+        return k
+
     def get(self, eng, st):
         base = self.parent.get(eng, st)
         if base.ty.kind == "map":
-            return eng.map_elem(st, base, eng.coerce(self.key, base.ty.key)[0])
+            return eng.map_elem(st, base, self._key(eng, st, base))
         raise Unsupported("sub-lvalue get on %r" % (base.ty,))
 
     def set(self, eng, st, sv):
         base = self.parent.get(eng, st)
         if base.ty.kind == "map":
-            k = eng.coerce(self.key, base.ty.key)[0]
-            v = eng.coerce(sv, base.ty.elem)[0]
+            k = self._key(eng, st, base)
+            v, c = eng.coerce(sv, base.ty.elem)
+            if c is not None and not eng.spec:
+                eng.oblige("type.dict-value", "type", st, c)
+                st.assume(c)
             keys, vals = eng.map_keys(base), eng.map_vals(base)
             has = z3.Contains(keys, z3.Unit(k.t))
             nk = z3.If(has, keys, z3.Concat(keys, z3.Unit(k.t)))
@@ -219,6 +229,11 @@ def isinstance_multi(eng, v, clsnode, st, fname="isinstance"):
         if len(outs) == 1 and not isinstance(outs[0][1], Raise) and outs[0][1].ty.kind == "type":
             return isinstance_type(eng, v, outs[0][1], fname)
         return eng.isinstance_sv(v, clsnode.attr)
+    # any other expression: a type object computed at run time (e.g. metadata.get(key))
+    outs = eng.ev(clsnode, st)
+    if len(outs) == 1 and not isinstance(outs[0][1], Raise) and outs[0][1].ty.kind == "obj":
+        f = eng.reg.ufun("isinst_dyn", PyObj, PyObj, z3.BoolSort())
+        return f(eng.to_obj(v), outs[0][1].t)
     raise Unsupported("isinstance class expr")
 
 
@@ -263,7 +278,7 @@ def spec_call(eng, node, name, st):
         vars_ = []
         env = {}
         for part in decl.split(","):
-            n, t = part.split(":")
+            n, t = part.split(":", 1)
             ty = S.parse_type(t.strip())
             c = z3.Const("q_%s_%d" % (n.strip(), S._fresh[0]), S.sort_of(ty))
             S._fresh[0] += 1
@@ -421,7 +436,135 @@ def _sb_isref(eng, st, x):
     return mk_bool(False)
 
 
-SPEC_BUILTINS = {"isref": _sb_isref, "store": _sb_store, "ival": _sb_ival, "seq_empty_real": _sb_seq_empty_real, "powf": _sb_powf,
+def _sb_has(eng, st, m, k):
+    kk = eng.coerce(k, m.ty.key)[0]
+    return mk_bool(eng.map_has(m, kk))
+
+
+def _sb_get(eng, st, m, k):
+    kk = eng.coerce(k, m.ty.key)[0]
+    return SV(m.ty.elem, z3.Select(eng.map_vals(m), kk.t))
+
+
+def _sb_contains(eng, st, sq, x):
+    xx = eng.coerce(x, sq.ty.elem)[0]
+    return mk_bool(z3.Contains(sq.t, z3.Unit(xx.t)))
+
+
+def _sb_nodup(eng, st, sq):
+    f = eng.reg.ufun("nodup_ref", z3.SeqSort(z3.IntSort()), z3.BoolSort())
+    return mk_bool(f(sq.t))
+
+
+def _sb_rm(eng, st, sq, x):
+    xx = eng.coerce(x, sq.ty.elem)[0]
+    return SV(sq.ty, seq_remove_first(eng, sq, xx))
+
+
+def _sb_map_put(eng, st, m, k, v):
+    kk = eng.coerce(k, m.ty.key)[0]
+    vv = eng.coerce(v, m.ty.elem)[0]
+    keys, vals = eng.map_keys(m), eng.map_vals(m)
+    has = z3.Contains(keys, z3.Unit(kk.t))
+    return eng.map_mk(m.ty, z3.If(has, keys, z3.Concat(keys, z3.Unit(kk.t))), z3.Store(vals, kk.t, vv.t))
+
+
+def _sb_map_del(eng, st, m, k):
+    kk = eng.coerce(k, m.ty.key)[0]
+    return SV(m.ty, z3.If(eng.map_has(m, kk), map_delete(eng, m, kk).t, m.t))
+
+
+def _sb_mapeq(eng, st, a, b):
+    """Extensional equality of two ordered maps: same key order, same value on every key
+    (values stored for absent keys are junk and do not count)."""
+    k = z3.Const("q_mk_%d" % S._fresh[0], S.sort_of(a.ty.key))
+    S._fresh[0] += 1
+    ka, kb = eng.map_keys(a), eng.map_keys(b)
+    return mk_bool(z3.And(ka == kb, z3.ForAll([k], z3.Implies(z3.Contains(ka, z3.Unit(k)),
+                                                              z3.Select(eng.map_vals(a), k) == z3.Select(eng.map_vals(b), k)))))
+
+
+def _sb_indexof(eng, st, sq, x):
+    xx = eng.coerce(x, sq.ty.elem)[0]
+    return SV(INT, z3.IndexOf(sq.t, z3.Unit(xx.t), 0))
+
+
+# ---- dynamic dict values (PyObj.O_other with kind 1): contents through uninterpreted functions
+def dyn_dict_funs(eng):
+    r = eng.reg
+    return {"kind": r.ufun("other_kind", z3.IntSort(), z3.IntSort()),
+            "len": r.ufun("other_len", z3.IntSort(), z3.IntSort()),
+            "keys": r.ufun("dict_keys", z3.IntSort(), z3.SeqSort(PyObj)),
+            "has": r.ufun("dict_has", z3.IntSort(), PyObj, z3.BoolSort()),
+            "get": r.ufun("dict_get", z3.IntSort(), PyObj, PyObj)}
+
+
+def is_dyn_dict(eng, o):
+    f = dyn_dict_funs(eng)
+    return z3.And(PyObj.is_O_other(o), f["kind"](PyObj.oid(o)) == 1)
+
+
+def dyn_dict_wf(eng, o):
+    """Facts about a dict value: len = number of keys, keys() lists exactly the present keys."""
+    f = dyn_dict_funs(eng)
+    i = PyObj.oid(o)
+    k = z3.Const("q_dk", PyObj)
+    return z3.And(f["len"](i) == z3.Length(f["keys"](i)), f["len"](i) >= 0,
+                  z3.ForAll([k], f["has"](i, k) == z3.Contains(f["keys"](i), z3.Unit(k)),
+                            patterns=[f["has"](i, k)]))
+
+
+def _sb_isdict(eng, st, x):
+    return mk_bool(is_dyn_dict(eng, eng.to_obj(x)))
+
+
+def _sb_dlen(eng, st, x):
+    return SV(INT, dyn_dict_funs(eng)["len"](PyObj.oid(eng.to_obj(x))))
+
+
+def _sb_dkeys(eng, st, x):
+    return SV(SEQ(OBJ), dyn_dict_funs(eng)["keys"](PyObj.oid(eng.to_obj(x))))
+
+
+def _sb_dhas(eng, st, x, k):
+    return mk_bool(dyn_dict_funs(eng)["has"](PyObj.oid(eng.to_obj(x)), eng.to_obj(k)))
+
+
+def _sb_dget(eng, st, x, k):
+    return SV(OBJ, dyn_dict_funs(eng)["get"](PyObj.oid(eng.to_obj(x)), eng.to_obj(k)))
+
+
+def _sb_isinst(eng, st, x, t):
+    f = eng.reg.ufun("isinst_dyn", PyObj, PyObj, z3.BoolSort())
+    return mk_bool(f(eng.to_obj(x), eng.to_obj(t)))
+
+
+def _sb_seq1(eng, st, x, like=None):
+    return SV(SEQ(x.ty), z3.Unit(x.t))
+
+
+def _sb_asref(eng, st, x, c):
+    return eng.coerce(x, REF(c.const))[0]
+
+
+def _sb_subseq(eng, st, sq, a, b):
+    aa, bb = eng.coerce(a, INT)[0].t, eng.coerce(b, INT)[0].t
+    return SV(sq.ty, z3.SubSeq(sq.t, aa, bb - aa))
+
+
+def _sb_empty_like(eng, st, sq):
+    return SV(sq.ty, z3.Empty(S.sort_of(sq.ty)))
+
+
+def _sb_map_empty(eng, st, m):
+    return mk_bool(z3.Length(eng.map_keys(m)) == 0)
+
+
+SPEC_BUILTINS = {"isdict": _sb_isdict, "dlen": _sb_dlen, "dkeys": _sb_dkeys, "dhas": _sb_dhas, "dget": _sb_dget,
+                 "isinst": _sb_isinst, "indexof": _sb_indexof, "mapeq": _sb_mapeq, "has": _sb_has, "get": _sb_get, "contains": _sb_contains, "nodup": _sb_nodup, "rm": _sb_rm,
+                 "map_put": _sb_map_put, "map_del": _sb_map_del, "seq1": _sb_seq1, "asref": _sb_asref,
+                 "subseq": _sb_subseq, "empty_like": _sb_empty_like, "map_empty": _sb_map_empty,
+                 "isref": _sb_isref, "store": _sb_store, "ival": _sb_ival, "seq_empty_real": _sb_seq_empty_real, "powf": _sb_powf,
                  "isinf": _sb_isinf, "isnan": _sb_isnan, "isfin": _sb_isfin, "val": _sb_val, "same": _sb_same,
                  "isnum": _sb_isnum, "isint": _sb_isint, "isfloat": _sb_isfloat, "isstr": _sb_isstr,
                  "isbool": _sb_isbool, "isnone": _sb_isnone,
@@ -636,6 +779,7 @@ def b_len(eng, s, a, k, node):
         o = v.t
         r = z3.If(PyObj.is_O_str(o), z3.Length(PyObj.sval(o)), ln(PyObj.oid(o)))
         s.assume(z3.Implies(PyObj.is_O_other(o), ln(PyObj.oid(o)) >= 0))
+        s.assume(z3.Implies(is_dyn_dict(eng, o), dyn_dict_wf(eng, o)))
         return eng.implicit(s, "TypeError", z3.Not(z3.Or(PyObj.is_O_str(o), PyObj.is_O_other(o))),
                             lambda s2: [(s2, SV(INT, r))])
     raise Unsupported("len(%r)" % (v.ty,))
@@ -710,9 +854,9 @@ def b_dict(eng, s, a, k, node):
     if v.ty.kind == "map":
         return [(s, SV(v.ty, v.t, const="fresh"))]
     if v.ty.kind == "obj":
-        fn = eng.reg.specfuns.get("dict_of_obj")
-        if fn:
-            return [(s, fn(eng, v))]
+        # dict(d) of a dict is a copy with the same content; of anything else it raises
+        # (TypeError for non-iterables, ValueError for malformed sequences): modelled as TypeError
+        return eng.implicit(s, "TypeError", z3.Not(is_dyn_dict(eng, v.t)), lambda s2: [(s2, v)])
     raise Unsupported("dict(%r)" % (v.ty,))
 
 
@@ -869,12 +1013,35 @@ def method_call2(eng, lv, recv, name, args, kwargs, s, node):
         if f is None:
             raise Unsupported("method %s.%s not found" % (static, name))
         return call_function(eng, f, recv, args, kwargs, s, static, False)
+    if k == "optseq":
+        # Optional[list] (result of dict.get): a method call on None raises AttributeError
+        has = recv.items[0]
+        asseq = SV(SEQ(recv.ty.elem), recv.t)
+        return eng.implicit(s, "AttributeError", z3.Not(has),
+                            lambda s2: seq_method(eng, ValueLV(asseq), asseq, name, args, s2))
     if k == "seq" or k == "emptylist":
         return seq_method(eng, lv, recv, name, args, s)
     if k == "map" or k == "emptydict":
         return map_method(eng, lv, recv, name, args, s)
     if k == "str":
         return str_method(eng, recv, name, args, s)
+    if k == "obj" and not eng.spec:
+        r = eng.refine_to_ref(recv, name, s)
+        if r is not None:
+            return method_call2(eng, ValueLV(r), r, name, args, kwargs, s, node)
+    if k == "obj" and name in ("keys", "get"):
+        o = recv.t
+        f = dyn_dict_funs(eng)
+
+        def cont(s2):
+            s2.assume(dyn_dict_wf(eng, o))
+            i = PyObj.oid(o)
+            if name == "keys":
+                return [(s2, SV(SEQ(OBJ), f["keys"](i), const=("view",)))]
+            key = eng.to_obj(args[0])
+            d = eng.to_obj(args[1]) if len(args) > 1 else PyObj.O_none
+            return [(s2, SV(OBJ, z3.If(f["has"](i, key), f["get"](i, key), d)))]
+        return eng.implicit(s, "AttributeError", z3.Not(is_dyn_dict(eng, o)), cont)
     if k == "exc" or k == "obj":
         hook = eng.reg.specfuns.get("objmethod_" + name)
         if hook:
@@ -903,6 +1070,16 @@ def seq_method(eng, lv, recv, name, args, s):
             eng.oblige("type.elem", "type", s, c)
         lv.set(eng, s, SV(recv.ty, z3.Concat(recv.t, z3.Unit(v.t)), const=recv.const))
         return [(s, mk_none())]
+    if name == "insert":
+        need_owned(eng, lv, s, "insert")
+        i = eng.coerce(args[0], INT)[0].t
+        v, c = eng.coerce(args[1], et)
+        eng.pack(v)
+        n = z3.Length(recv.t)
+        j = z3.If(i < 0, z3.If(i + n < 0, 0, i + n), z3.If(i > n, n, i))
+        new = z3.Concat(z3.SubSeq(recv.t, 0, j), z3.Unit(v.t), z3.SubSeq(recv.t, j, n - j))
+        lv.set(eng, s, SV(recv.ty, new, const=recv.const))
+        return [(s, mk_none())]
     if name == "copy":
         return [(s, SV(recv.ty, recv.t, const="fresh"))]
     if name == "clear":
@@ -926,9 +1103,7 @@ def seq_method(eng, lv, recv, name, args, s):
         present = z3.Contains(recv.t, z3.Unit(v.t))
 
         def cont(s2):
-            i = z3.IndexOf(recv.t, z3.Unit(v.t), 0)
-            n = z3.Length(recv.t)
-            new = z3.Concat(z3.SubSeq(recv.t, 0, i), z3.SubSeq(recv.t, i + 1, n - i - 1))
+            new = seq_remove_first(eng, recv, v)
             lv.set(eng, s2, SV(recv.ty, new, const=recv.const))
             return [(s2, mk_none())]
         return eng.implicit(s, "ValueError", z3.Not(present), cont)
@@ -948,6 +1123,19 @@ def seq_method(eng, lv, recv, name, args, s):
             return [(s2, e)]
         return eng.implicit(s, "IndexError", n == 0, cont)
     raise Unsupported("list.%s" % name)
+
+
+def seq_remove_first(eng, seq, v):
+    """list.remove: delete the first element equal to v (shifting the rest).  For sequences of
+    references the term is wrapped in the named function rm_ref (defined by an axiom in the
+    'seqref' axiom set) so that the sequence lemmas of that set can be instantiated."""
+    if seq.ty.elem.kind == "ref":
+        f = eng.reg.ufun("rm_ref", z3.SeqSort(z3.IntSort()), z3.IntSort(), z3.SeqSort(z3.IntSort()))
+        return f(seq.t, v.t)
+    i = z3.IndexOf(seq.t, z3.Unit(v.t), 0)
+    n = z3.Length(seq.t)
+    return z3.If(z3.Contains(seq.t, z3.Unit(v.t)),
+                 z3.Concat(z3.SubSeq(seq.t, 0, i), z3.SubSeq(seq.t, i + 1, n - i - 1)), seq.t)
 
 
 def map_method(eng, lv, recv, name, args, s):
@@ -1003,9 +1191,7 @@ def map_method(eng, lv, recv, name, args, s):
 
 def map_delete(eng, m, k):
     keys = eng.map_keys(m)
-    i = z3.IndexOf(keys, z3.Unit(k.t), 0)
-    n = z3.Length(keys)
-    nk = z3.Concat(z3.SubSeq(keys, 0, i), z3.SubSeq(keys, i + 1, n - i - 1))
+    nk = seq_remove_first(eng, SV(SEQ(m.ty.key), keys), k)
     return eng.map_mk(m.ty, nk, eng.map_vals(m))
 
 
